@@ -54,6 +54,11 @@ let mip_check (op : string) (a : string array) (expected : string) : bool =
      chk_sopes_opt n tabs (p_z a.(1)) (p_z a.(2)) (p_z a.(3)) ret_strip w
   | _ -> failwith "mip_check"
 
+(* number of variables a cube / exclusive cube talks about (0 for the canonical zero cube, whose masks are all ones) *)
+let bits_of_n (x : n) = (match x with N0 -> 0 | Npos p -> List.length (bits_of_pos p))
+let cube_bits (c : cube) = if cube_eqb c cube_zero then 0 else max (bits_of_n c.cpos) (bits_of_n c.cneg)
+let ecube_bits (e : ecube) = bits_of_n e.evars
+
 let check (op : string) (ty : string) (a : string array) (expected : string) : bool option =
   let dyn = (ty = "D") in
   match base_of op with
@@ -213,6 +218,45 @@ let check (op : string) (ty : string) (a : string array) (expected : string) : b
   | "x.is_one" -> let x = p_esop a.(0) in
      if int_of_nat x.env > 12 then None else
      Some ((not (p_bool expected)) || List.for_all (fun m -> sem_xor x.ecubes m) (dom x.env))
+  (* ---- C12 / C13 / C16: cubes, exclusive cubes, sums of exclusive cubes and printed text, from the property text.
+     Exhaustive over the assignments of the variables that occur when these are at most 12, otherwise no verdict
+     (printed text: a fixed sample of 66 assignments) *)
+  | "c.value" -> Some (chk_cube_value (p_cube a.(0)) (p_n a.(1)) (p_bool expected))
+  | "c.and" -> let x = p_cube a.(0) and y = p_cube a.(1) in
+     let k = max (cube_bits x) (cube_bits y) in
+     if k > 12 then None else Some (chk_cube_and (nat_of_int k) x y (p_cube expected))
+  | "c.intersects" -> let x = p_cube a.(0) and y = p_cube a.(1) in
+     let k = max (cube_bits x) (cube_bits y) in
+     if k > 12 then None else Some (chk_cube_intersects (nat_of_int k) x y (p_bool expected))
+  | "c.implies" -> let x = p_cube a.(0) and y = p_cube a.(1) in
+     let k = max (cube_bits x) (cube_bits y) in
+     if k > 12 then None else Some (chk_cube_implies (nat_of_int k) x y (p_bool expected))
+  | "c.implies_lut" -> let x = p_cube a.(0) and l = p_lut a.(1) in
+     if not (wf_ l) || int_of_nat l.nv > 12 then None else Some (chk_cube_implies_lut l.nv x l.tbl (p_bool expected))
+  | "e.value" -> Some (chk_ecube_value (p_ecube a.(0)) (p_n a.(1)) (p_bool expected))
+  | "e.xor" -> let x = p_ecube a.(0) and y = p_ecube a.(1) in
+     let k = max (ecube_bits x) (ecube_bits y) in
+     if k > 12 then None else Some (chk_ecube_xor (nat_of_int k) x y (p_ecube expected))
+  | "e.not" -> let x = p_ecube a.(0) in
+     let k = ecube_bits x in
+     if k > 12 then None else Some (chk_ecube_not (nat_of_int k) x (p_ecube expected))
+  | "o.or" -> let x = p_soes a.(0) and y = p_soes a.(1) in
+     if int_of_nat x.onv > 12 then None else
+     if int_of_nat x.onv <> int_of_nat y.onv then Some (expected = "panic") else if expected = "panic" then Some false else
+     let r = p_soes expected in
+     Some (int_of_nat r.onv = int_of_nat x.onv && chk_soes_or x.onv x.ocubes y.ocubes r.ocubes)
+  | "c.display" -> let x = p_cube a.(0) in
+     let k = cube_bits x in
+     Some (chk_text (p_bytes expected) (spec_cube_value x) (if k <= 12 then dom (nat_of_int k) else sample_assignments) false)
+  | "e.display" -> let x = p_ecube a.(0) in
+     let k = ecube_bits x in
+     Some (chk_text (p_bytes expected) (spec_ecube_value x) (if k <= 12 then dom (nat_of_int k) else sample_assignments) true)
+  | "s.display" -> let x = p_sop a.(0) in
+     Some (chk_text (p_bytes expected) (spec_sop_value x.scubes) (if int_of_nat x.snv <= 12 then dom x.snv else sample_assignments) false)
+  | "x.display" -> let x = p_esop a.(0) in
+     Some (chk_text (p_bytes expected) (spec_esop_value x.ecubes) (if int_of_nat x.env <= 12 then dom x.env else sample_assignments) false)
+  | "o.display" -> let x = p_soes a.(0) in
+     Some (chk_text (p_bytes expected) (spec_soes_value x.ocubes) (if int_of_nat x.onv <= 12 then dom x.onv else sample_assignments) false)
   (* ---- C10: conversions, from the property text: LutN -> Lut keeps size and table; Lut -> LutN fails exactly when
      the variable counts differ and keeps the table otherwise; bit m of the integer is f(m) *)
   | "to_dyn" -> let x = p_lut a.(0) in
